@@ -254,7 +254,6 @@ func (w *World) evalStrUnder(fn *ssa.Function, v ssa.Value, keep edgeKeep) sval 
 	return w.evalStr(v, senv{}, 0)
 }
 
-
 func isByteSlice(t types.Type) bool {
 	sl, ok := t.Underlying().(*types.Slice)
 	if !ok {
